@@ -36,7 +36,7 @@ def run(ctx):
     ctx.fingerprint(FILES)
     ctx.translate(["Z3"])
     ctx.build("C12_z3", deps=["Model/Z3Model.v"])   # the part's own statements, whatever property id runs it
-    n = 60 if quick else 600
+    n = 60 if quick else 400
     specs = []
     for i in range(n):
         s = Z.gen_spec(ctx.rng, ["mixed", "dag", "single", "busy"][i % 4])
